@@ -120,13 +120,16 @@ func (d *wrappedSlidingWindowDetector) Check(seq uint64) (func() bool, bool) {
 
 	return func() bool {
 		latest := false
+		bit := uint(0)
 		if diff < 0 {
 			// Update the head of the window.
 			d.mask.Lsh(uint(-diff))
 			d.latestSeq = seq
 			latest = true
+		} else {
+			bit = uint(diff)
 		}
-		d.mask.SetBit(uint(d.latestSeq - seq))
+		d.mask.SetBit(bit)
 
 		return latest
 	}, true
